@@ -326,29 +326,36 @@ EXTRA = {
            "objects whose access raises; LindbladForms sharing one system-bath interaction; in-place "
            "operator sums; one eigenbasis_of object re-entered; Redfield tensors TD/TI x tensor/"
            "converted x first read; freeze-by-protect histories (protect inside, leave, unprotect at "
-           "another depth); sibling inner contexts; the state key also hashes every attribute of "
+           "another depth); sibling inner contexts; nested contexts that fail to enter; context "
+           "operators overwritten inside their context; the state key also hashes every attribute of "
            "the Manager, the objects and the open context managers (shallow canonical form), so a "
            "cache kept anywhere there cannot be merged away; a library exception raised by an "
            "operation of the alphabet is a violation.",
     "C05": "user-set global units as the bottom of the stack; prepared-then-entered context objects; "
            "27 accessors (cut-off arguments, RWA energies and skeleton, transition energies, "
            "caller-mutated arrays, first read inside a basis context, state energies with "
-           "vibrational quanta, values= route of CorrelationFunction); 48-call menu.",
+           "vibrational quanta, values= route of CorrelationFunction, electronic Hamiltonian); 52-call "
+           "menu incl. loop bodies of public generators; refused units requests.",
     "C06": "five analytic bath types in the bath section; ground-state energy offsets; three requests "
            "at different temperatures on one object; requests inside units contexts; operator-form "
            "tensors converted inside/outside the context; the zero-frequency element is allowed the "
            "computed l'Hospital discretisation error only.",
     "C07": "shared initial state across forms; refinement (argument and setting) against absolute "
            "references; non-dyadic axes; expansion orders; conversion after the propagator exists; "
-           "unsorted energies with a different bath per site.",
+           "unsorted energies with a different bath per site; complex unitary basis and complex "
+           "couplings; rotating frame with an absolute oracle and frame marker; pure dephasing "
+           "(Lorentzian, Gaussian) x axis start across the three forms.",
     "C08": "pure dephasing grid; complex Hamiltonians; observation inside contexts; histories of "
            "set_dense_dt / calculate on one object; apply(copy=False); sub-axes not starting at t_0.",
     "C09": "all analytic ftypes incl. legacy ones; construction units per component; list-built "
            "composites; FT-part sums; measurement histories (measure, add_to_data, add_to_data-self); "
            "time axes; zero-reorganisation-energy operands; one-sided / asymmetric frequency axes; "
-           "temperature bookkeeping of composites converted to correlation functions.",
+           "temperature bookkeeping of composites converted to correlation functions; construction "
+           "inputs reused and modified by the caller; refused additions through every public route.",
     "C10": "3-4 modes; complex shifts; fem_full; direct coupling() calls inside units contexts; "
-           "second build after changing shifts (setting histories); 12-20 levels in quick.",
+           "second build after changing shifts (setting histories); 12-20 levels in quick; ordered "
+           "pairs/triples of later calls on the built aggregate; near-degenerate and up to 20 distinct "
+           "shifts; three-level molecules with all dipole patterns; per-state mode frequencies.",
     "C11": "explicit correlation-function matrices with cross terms; coupling cut-off; histories on "
            "one aggregate and on one calculator (re-bootstrap); dipole scale factors down to 1e-4; "
            "common ground-state energy offsets.",
@@ -360,21 +367,26 @@ EXTRA = {
            "axis mutation histories.",
     "C14": "re-issue of the stored state; complex Hermitian contexts; nested non-commuting contexts; "
            "aggregate ground-state energy offsets; object histories before the request; relaxation "
-           "Hamiltonians that do not commute with the aggregate Hamiltonian.",
+           "Hamiltonians that do not commute with the aggregate Hamiltonian; multi-scale level "
+           "structures (kT far below the level spread, several levels populated).",
     "C15": "every call also inside ambient units / basis contexts; user refills of the initial-state "
            "objects; non-equilibrium Foerster; free_hierarchy; propagation-matrix corrections; "
            "refused calls; plain Hamiltonians without RWA; pure dephasing with persisted refinement; "
            "reads of inputs between calls; results of EARLIER calls held by the caller must not "
-           "change; recalculate=False requests.",
+           "change; recalculate=False requests; cut-offs above every coupling; an overflowing run on "
+           "a shared hierarchy followed by ordinary runs.",
     "C16": "depths 10-14 for the index clauses; complex Hamiltonians; ground-state energy offsets; "
            "construction inside units contexts; call histories on one propagator (free_hierarchy, "
-           "deeper then shallower requests, held results); time axes not starting at zero.",
+           "deeper then shallower requests, held results); time axes not starting at zero; commuting "
+           "system-bath operators that are not site projectors (exact cumulant reference); propagation "
+           "axis whose step differs from the bath axis.",
     "C17": "integer / tuple initial vectors; request histories on ONE propagator; corrections= option "
            "with the rate matrix compared before/after; non-dyadic and offset parent axes; slow and "
            "multi-scale generators; long axes; results held across later requests.",
     "C18": "one-row / one-column / one-point shapes; complex Hermitian contexts; magnitudes 1e-10; "
            "savedir tag histories; saving leaves the object alone; import inside contexts; file-name "
-           "reuse; wavelength units with negative / zero-crossing axis values.",
+           "reuse; exported axis in every unit for 12 axis kinds; series of 2-3 objects in one open "
+           "file object with every read order.",
     "C19": "falsy tags; retained views; read-order pairs; non-square (2,3) data; results derived from "
            "get_TwoDSpectrum (devide_by / normalize2 / add_data) leave the container alone; additions "
            "and reductions before the axes exist.",
